@@ -64,9 +64,8 @@ func wrapGraphNodeError(nodeKey string, err error) error {
 	if ok := isInterruptError(err); ok {
 		return err
 	}
-	var ie *internalError
-	ok := errors.As(err, &ie)
-	if !ok {
+	ie := pathCarrier(err)
+	if ie == nil {
 		return &internalError{
 			typ:       internalErrorTypeNodeRun,
 			nodePath:  NodePath{path: []string{nodeKey}},
@@ -94,6 +93,44 @@ func wrapGraphNodeError(nodeKey string, err error) error {
 	}
 }
 
+// pathCarrier finds the error in the chain of err (depth first through joined errors) that says where, in
+// the run that err comes from, the failure arose: the first internalError that has a node path. Errors of
+// the run itself (a failing branch condition, a stream that could not be concatenated for the caller) have
+// none, but may be caused by the error item of a node, which has. Without any node path in the chain it is
+// the first internalError; nil if there is none.
+func pathCarrier(err error) *internalError {
+	var first *internalError
+	var walk func(err error) *internalError
+	walk = func(err error) *internalError {
+		if err == nil {
+			return nil
+		}
+		if ie, ok := err.(*internalError); ok {
+			if len(ie.nodePath.path) > 0 {
+				return ie
+			}
+			if first == nil {
+				first = ie
+			}
+		}
+		switch x := err.(type) {
+		case interface{ Unwrap() error }:
+			return walk(x.Unwrap())
+		case interface{ Unwrap() []error }:
+			for _, e := range x.Unwrap() {
+				if ie := walk(e); ie != nil {
+					return ie
+				}
+			}
+		}
+		return nil
+	}
+	if ie := walk(err); ie != nil {
+		return ie
+	}
+	return first
+}
+
 func newStreamWrapperError(streamWrapperType defaultImplAction, err error) error {
 	return &internalError{
 		typ:               internalErrorTypeGraphRun,
@@ -106,9 +143,8 @@ func wrapStreamWrapperError(streamWrapperType defaultImplAction, err error) erro
 	if ok := isInterruptError(err); ok {
 		return err
 	}
-	var ie *internalError
-	ok := errors.As(err, &ie)
-	if !ok {
+	ie := pathCarrier(err)
+	if ie == nil {
 		return &internalError{
 			typ:               internalErrorTypeNodeRun,
 			streamWrapperPath: []defaultImplAction{streamWrapperType},
